@@ -29,7 +29,7 @@ def engine_render(res):
 def compare(ck, histories, env=None, fuel=400000):
     """Run histories (list of list of units) on engine and model; return list of (engine, model) strings."""
     cases = [[lang.unit_to_steel(u) for u in h] for h in histories]
-    eng = ck.eval_cases(cases, fresh=True, env=env, batch=40)
+    eng = ck.eval_cases(cases, fresh=True, env=env, batch=16, timeout_per_batch=90)
     mod = ck.coq_eval(lang.COQ_HEADER, [lang.model_expr(h, fuel) for h in histories], shard=25)
     return [(engine_render(e), m) for e, m in zip(eng, mod)]
 
@@ -38,7 +38,10 @@ def shrink_case(ck, prog, env=None):
     """Minimise a disagreeing program (the disagreement must persist; out-of-fuel never counts)."""
     def fails(cands):
         res = compare(ck, [[c] for c in cands], env=env)
-        return [e != m and "FUEL" not in m and "HANG" not in e for e, m in res]
+        # never drift into the static free-identifier check (the engine does not report free identifiers in
+        # code its optimiser removed; the generators never produce free identifiers)
+        return [e != m and "FUEL" not in m and "HANG" not in e and "FreeIdentifier" not in m and "FreeIdentifier" not in e
+                for e, m in res]
     try:
         return lang.shrink(prog, fails)
     except Exception as ex:   # shrinking is best effort
@@ -52,7 +55,11 @@ def run(ck):
         "reference semantics coq/lib/Lang.v (hand written: the 'direct reading' oracle)",
         "correspondence harness (evalsrv), renderers checks/lang.py (AST -> Steel text, AST -> Coq term)",
     ]
-    proved = True
+    proved = ck.proof_stage(["c01", "lib"], ["c01/Reference_C01"], "c01/Pins_C01ref.v")
+    import os
+    if os.path.exists(os.path.join(common.COQ, "c01", "Pins_C01.v")):
+        # simulation theorems for the model compiler / VM (core fragment)
+        proved = ck.proof_stage(["c01"], ["c01/Properties_C01"], "c01/Pins_C01.v") and proved
     ck.harness_build(["evalsrv"])
     g = lang.Gen(ck.rng)
     n = 200 if ck.tier == "quick" else 5000
@@ -77,3 +84,5 @@ def run(ck):
     ck.cov["distinct_nontrivial"] = len(nontrivial)
     ck.cov["rule"] = "type-directed random programs (checks/lang.py Gen); distinct = distinct reference outcomes (values+output+error class)"
     ck.cov["construct_histogram"] = g.stats
+    if not proved and not ck.violations:
+        ck.unproved()
